@@ -14,7 +14,7 @@ encfix.install()
 encfix.install_signing_hash()
 install_oracle()
 
-FUNCTIONS_ENCODED = ['pgpy.packet.packets.PKESessionKeyV3.encrypt_sk / decrypt_sk', 'pgpy.packet.packets.SKESessionKeyV4.encrypt_sk / decrypt_sk / __bytearray__ / parse',
+FUNCTIONS_ENCODED = ['pgpy.packet.packets.SKEData.decrypt', 'pgpy.pgp.PGPMessage.__or__ (session-key packets)', 'pgpy.packet.packets.PKESessionKeyV3.encrypt_sk / decrypt_sk', 'pgpy.packet.packets.SKESessionKeyV4.encrypt_sk / decrypt_sk / __bytearray__ / parse',
                      'pgpy.packet.packets.IntegrityProtectedSKEDataV1.encrypt / decrypt', 'pgpy.pgp.PGPMessage.encrypt / decrypt', 'pgpy.pgp.PGPKey.encrypt / decrypt',
                      'pgpy.packet.fields.ECKDF.derive_key', 'pgpy.packet.packets.MDC', 'pgpy.pgp.PGPMessage.parse']
 STUBS = ['symmetric cipher -> keyed-transparent ideal model; SHA-1 (MDC) -> collision-free stand-in; String2Key.derive_key -> recording stand-in; os.urandom -> entropy feed',
